@@ -1,7 +1,8 @@
 (* C04 (concurrent part, second layer) — which entries a goroutine may still
    hold, over ALL interleavings, all programs. Statements only; proofs are
    [exact] of theorems of SyncMap/SetAtomic.v (part A and the bridge).
-   Companion of Props/C04conc.v; to be merged into Props/C04.v. *)
+   Companion of Props/C04conc.v (one of the files of property C04, see
+   props_files in bin/props/C04.json). *)
 From Typ Require Import SyncMap.Model SyncMap.Inv SyncMap.SetAtomic.
 From Typ Require SyncMap.SeqProofs.
 
@@ -9,16 +10,16 @@ From Typ Require SyncMap.SeqProofs.
    sequential development (SyncMap/SeqProofs.v) — so every lemma of the
    sequential refinement (Load_spec, Store_spec, ...) applies to the state at
    every lock-free moment of every concurrent execution. *)
-Theorem C04_sequential_WF_whenever_unlocked : forall n progs sched j i,
-  let c := run_schedule (init_config n progs) sched in
+Theorem C04_sequential_WF_whenever_unlocked : forall zs progs sched j i,
+  let c := run_schedule (init_config_z zs progs) sched in
   nth_error (c_insts c) j = Some i -> i_mu i = None -> SeqProofs.WF (i_st i).
 Proof. exact seq_WF_when_unlocked. Qed.
 Print Assumptions C04_sequential_WF_whenever_unlocked.
 
 (* Entries that were never in a read map (recorded in dirty under a key that
    read.m does not have) hold a value, at every moment. *)
-Theorem C04_dirty_only_entries_hold_values : forall n progs sched j i,
-  let c := run_schedule (init_config n progs) sched in
+Theorem C04_dirty_only_entries_hold_values : forall zs progs sched j i,
+  let c := run_schedule (init_config_z zs progs) sched in
   nth_error (c_insts c) j = Some i ->
   forall k e, dirty_lookup (i_st i) k = Some e -> read_m (i_st i) !! k = None -> exists v, get_ent (i_st i) e = PVal v.
 Proof. exact dirty_only_entries_hold_values. Qed.
@@ -28,8 +29,8 @@ Print Assumptions C04_dirty_only_entries_hold_values.
    lock-free path (tryStore, tryLoadOrStore, entry.delete on an entry taken from
    a read map) is still THE entry of the current read map for its key, or it is
    expunged and reachable from neither map — never a second live entry. *)
-Theorem C04_stale_entry_is_dead : forall n progs sched t f i e,
-  let c := run_schedule (init_config n progs) sched in
+Theorem C04_stale_entry_is_dead : forall zs progs sched t f i e,
+  let c := run_schedule (init_config_z zs progs) sched in
   top_frame c t = Some f -> nth_error (c_insts c) (call_inst (f_call f)) = Some i -> f_e f = Some e ->
   (f_pc f = TryStore_load \/ f_pc f = TryStore_cas \/
    ((f_pc f = Tlos_load1 \/ f_pc f = Tlos_cas \/ f_pc f = Tlos_load2) /\ f_mode f = MFast) \/
@@ -43,7 +44,7 @@ Print Assumptions C04_stale_entry_is_dead.
    reference discipline of every current frame incl. the privacy of an entry
    LoadAndDelete removed from the dirty map; no two goroutines hold the same
    removed entry). *)
-Theorem C04_reference_discipline : forall n progs sched, Inv2 (run_schedule (init_config n progs) sched).
+Theorem C04_reference_discipline : forall zs progs sched, Inv2 (run_schedule (init_config_z zs progs) sched).
 Proof. exact Inv2_reachable. Qed.
 Print Assumptions C04_reference_discipline.
 
